@@ -13,14 +13,20 @@ type Doc []string
 func (d Doc) Text() string { return strings.Join(d, "") }
 
 // T splits a compact JSON text into tokens (structural characters, string
-// literals, number / keyword literals). Whitespace outside strings is dropped.
+// literals, number / keyword literals, whitespace runs).
 func T(s string) Doc {
 	var out Doc
 	for i := 0; i < len(s); {
 		c := s[i]
 		switch {
-		case c == ' ' || c == '\n' || c == '\t':
-			i++
+		case c == ' ' || c == '\n' || c == '\t' || c == '\r':
+			// a whitespace run is a token of its own, so that seeds keep their spelling
+			j := i
+			for j < len(s) && (s[j] == ' ' || s[j] == '\n' || s[j] == '\t' || s[j] == '\r') {
+				j++
+			}
+			out = append(out, s[i:j])
+			i = j
 		case strings.ContainsRune("{}[],:", rune(c)):
 			out = append(out, string(c))
 			i++
@@ -36,7 +42,7 @@ func T(s string) Doc {
 			i = j + 1
 		default:
 			j := i
-			for j < len(s) && !strings.ContainsRune("{}[],: \n\t\"", rune(s[j])) {
+			for j < len(s) && !strings.ContainsRune("{}[],: \n\t\r\"", rune(s[j])) {
 				j++
 			}
 			out = append(out, s[i:j])
@@ -185,6 +191,15 @@ func Seeds() []string {
 	add(Obj("Feature", `"geometry":`+pt, `"propert\u0069es":{"a":1}`))
 	add(Obj("Feature", `"geometry":`+pt, `"x":"\"properties\":","y":[{"properties":null}]`))
 	add(`{"\u0074ype":"Point","coordinates":[1,2]}`)
+	// members on nested children, member order, whitespace, number spellings, unicode
+	add(Obj("GeometryCollection", `"geometries":[`+Obj("Point", `"coordinates":[1,2]`, `"id":"child","bbox":[1,2,1,2]`)+`,`+Obj("LineString", `"coordinates":[[0,0],[1,1]]`, `"name":{"x":[true,false,null]}`)+`]`, `"properties":{"outer":1}`))
+	add(Obj("FeatureCollection", `"features":[`+Obj("Feature", `"geometry":`+Obj("Point", `"coordinates":[1,2,3]`, `"inner":1`), `"id":"a","properties":{"p":1},"z":[]`)+`]`, `"bbox":[0,0,9,9],"crs":null`))
+	add(`{"bbox":[1,2,1,2],"coordinates":[1,2],"id":5,"type":"Point","zz":"last"}`)
+	add("{\n  \"type\" : \"LineString\" ,\n\t\"coordinates\" : [ [ 0 , 0 ] , [ 1.0 , 1e0 ] ]\r\n}")
+	add(Obj("MultiPoint", `"coordinates":[[1E2,2e+1,3],[-0.0,0.10,5,6],[7,8]]`))
+	add(Obj("Point", `"coordinates":[12345678901234567890,0.1e-2]`, `"big":123456789012345678901234567890,"s":"\u00e9\ud83d\ude00\n\"q\""`))
+	add(Obj("Feature", `"geometry":`+Obj("MultiLineString", `"coordinates":[[[0,0],[1,1]],[[2,2],[3,3],[4,2]]]`), `"properties":null,"id":null`))
+	add(Obj("Feature", `"geometry":`+Obj("Feature", `"geometry":`+Obj("Point", `"coordinates":[1,2]`), `"id":"inner"`), `"id":"outer"`))
 	// duplicate and escaped keys
 	add(`{"type":"LineString","type":"Point","coordinates":[[0,0],[1,1]],"coordinates":[3,4]}`)
 	add(`{"type":"Point","coordinates":[1,2],"a":1,"a":2}`)
